@@ -10,7 +10,7 @@ TABLES = ["schema", "functions"]
 BUDGET = {"quick": (4, 50), "thorough": (16, 400)}
 EXTRA_TARGETS = ["theories/Typed/SchemaChecks.vo", "theories/Typed/DispatchTable.vo"]
 GEN_OBLIGATIONS = [
-    "Typed/SchemaChecks.v:Schema_types (exactly the 18 expected Type strings)", "Typed/SchemaChecks.v:Schema_types_distinct",
+    "Typed/SchemaChecks.v:Schema_types (the 18 known Type strings are all still modelled; the live list may be longer)", "Typed/SchemaChecks.v:Schema_types_distinct",
     "Typed/SchemaChecks.v:Schema_discriminator", "Typed/SchemaChecks.v:Schema_modelled_strict (extra=forbid, Literal Type, subclass of Resource)",
     "Typed/SchemaChecks.v:Schema_properties_required", "Typed/SchemaChecks.v:Schema_extra (allow: PolicyDocument, GenericResource, Generic, FunctionDict)",
     "Typed/SchemaChecks.v:Schema_strict_default", "Typed/SchemaChecks.v:Schema_union_order", "Typed/SchemaChecks.v:Schema_resolvable",
